@@ -1123,6 +1123,228 @@ func c17Round4(c *core.Ctx) {
 		}
 	}
 
+	// ---- R17.11 a 64-bit parameter of a command is narrowed (to int, or to a shorter unsigned
+	// type) only behind an upper bound that the target type can hold, made on the unsigned
+	// value: otherwise the command is answered 200 with the requested value echoed while
+	// the table holds that value modulo 2^16 (Capacity 65536 becomes 0), or a negative one.
+	{
+		nNarrow := 0
+		for _, fn := range p.FuncsIn(pkg) {
+			if strings.HasSuffix(p.File(fn.Pos()), "_test.go") {
+				continue
+			}
+			core.Instrs(fn, func(in ssa.Instruction) {
+				cv, ok := in.(*ssa.Convert)
+				if !ok {
+					return
+				}
+				from, okF := cv.X.Type().Underlying().(*types.Basic)
+				to, okT := cv.Type().Underlying().(*types.Basic)
+				if !okF || !okT || from.Kind() != types.Uint64 || to.Info()&types.IsInteger == 0 {
+					return
+				}
+				u, isU := core.Strip(cv.X).(*ssa.UnOp)
+				if !isU || u.Op != token.MUL {
+					return
+				}
+				if _, path := core.FieldPath(u.X); len(path) == 0 {
+					return
+				}
+				if tn := core.TypePkgPath(func() types.Type {
+					if fa, isFA := core.Strip(u.X).(*ssa.UnOp); isFA {
+						if f2, isF2 := fa.X.(*ssa.FieldAddr); isF2 {
+							return f2.X.Type()
+						}
+					}
+					return cv.X.Type()
+				}()); !strings.Contains(tn, "mgmt_2022") {
+					return
+				}
+				var max uint64
+				switch to.Kind() {
+				case types.Uint8:
+					max = 1<<8 - 1
+				case types.Uint16:
+					max = 1<<16 - 1
+				case types.Uint32:
+					max = 1<<32 - 1
+				case types.Int8:
+					max = 1<<7 - 1
+				case types.Int16:
+					max = 1<<15 - 1
+				case types.Int32:
+					max = 1<<31 - 1
+				case types.Int, types.Int64:
+					max = 1<<63 - 1
+				default:
+					return // uint64 / uint / uintptr: no narrowing on this platform
+				}
+				// only conversions whose result is adopted by a call outside logging
+				adopted := false
+				seen := map[ssa.Value]bool{}
+				var walk func(v ssa.Value)
+				walk = func(v ssa.Value) {
+					if seen[v] {
+						return
+					}
+					seen[v] = true
+					for _, r := range core.Refs(v) {
+						switch y := r.(type) {
+						case *ssa.Phi:
+							walk(y)
+						case *ssa.Convert:
+							walk(y)
+						case ssa.CallInstruction:
+							if id, okID := core.Callee(y.Common()); okID && (id.Pkg == "fw/table" || id.Pkg == "fw/face") {
+								adopted = true
+							}
+						}
+					}
+				}
+				walk(cv)
+				if !adopted {
+					return
+				}
+				nNarrow++
+				c.Funcs[core.FuncName(fn)] = true
+				src := ssa.Value(u)
+				fits := &core.Atom{Name: "parameter fits the target type", Match: func(cond ssa.Value) (int, int) {
+					op, x, y, okC := core.Cmp(cond)
+					if !okC {
+						return 0, 0
+					}
+					if bt, isB := x.Type().Underlying().(*types.Basic); !isB || bt.Info()&types.IsUnsigned == 0 {
+						return 0, 0
+					}
+					if !(core.StripConv(x) == src || core.Same(core.StripConv(x), src)) {
+						return 0, 0
+					}
+					k, isC := core.ConstInt(core.StripConv(y))
+					if !isC || k < 0 {
+						return 0, 0
+					}
+					switch {
+					case op == token.GTR && uint64(k) <= max, op == token.GEQ && uint64(k) <= max+1 && k > 0:
+						return -1, 1
+					case op == token.LEQ && uint64(k) <= max, op == token.LSS && uint64(k) <= max+1 && k > 0:
+						return 1, -1
+					}
+					return 0, 0
+				}}
+				// the value adopted: either the conversion is behind the bound, or every use of
+				// it is (clamp after the conversion on the unsigned source)
+				// (edges asserting that the parameter is absent cannot lead to the conversion,
+				// which dereferences it)
+				cut, per := core.CutEdgesDeep(fn, pos(fits), neg(atomNonNil("parameter present", u.X)))
+				for e := range core.FlagCuts(fn, []ssa.Instruction{in}) {
+					cut[e] = true
+				}
+				okN := per[0] > 0
+				if okN && core.ReachInstr(fn, in, cut, nil) == nil {
+					// the conversion itself is behind the bound
+				} else if okN {
+					// every adopting call must be unreachable, or receive another value, without a bound edge
+					var calls []ssa.Instruction
+					seen2 := map[ssa.Value]bool{}
+					var collect func(v ssa.Value)
+					collect = func(v ssa.Value) {
+						if seen2[v] {
+							return
+						}
+						seen2[v] = true
+						for _, r := range core.Refs(v) {
+							switch y := r.(type) {
+							case *ssa.Phi:
+								collect(y)
+							case *ssa.Convert:
+								collect(y)
+							case ssa.CallInstruction:
+								if id, okID := core.Callee(y.Common()); okID && (id.Pkg == "fw/table" || id.Pkg == "fw/face") {
+									calls = append(calls, y)
+								}
+							}
+						}
+					}
+					collect(cv)
+					for _, cl := range calls {
+						ci := cl.(ssa.CallInstruction)
+						for _, a := range ci.Common().Args {
+							if core.FlowPath(a, cl, func(x ssa.Value) bool { return x == ssa.Value(cv) }, cut, nil) {
+								okN = false
+							}
+						}
+					}
+				}
+				c.Decide(okN, "R17.11", fmt.Sprintf("parameter-narrowing-bounded:%s:%s", core.FuncName(fn), to.Name()), c.Pos(in), "the 64-bit parameter reaches the table / face call only bounded by what "+to.Name()+" can hold (bound made on the unsigned value)", core.FuncName(fn)+" converts a 64-bit command parameter to "+to.Name()+" and hands it on without an upper bound on the unsigned value that "+to.Name()+" can hold: the command is answered 200 with the requested value echoed, but the forwarder acts on the value modulo the target type (Capacity 65536 becomes 0) or on a negative one")
+			})
+		}
+		c.Floor("R17.11", "narrowing conversions of a command parameter that reach a table or face call", nNarrow, 2)
+	}
+
+	// ---- R17.12 the handlers agree on "FaceId 0 means the requesting face": every handler that
+	// defaults the face to the requesting one adopts the parameter only on the edge asserting
+	// *FaceId != 0 (rib/register does; a route registered with FaceId=0 must be removable
+	// with FaceId=0)
+	{
+		type site struct {
+			fn    string
+			pos   string
+			gated bool
+		}
+		var sites []site
+		for _, fn := range p.FuncsIn(pkg) {
+			if fn.Parent() != nil || fn.Signature.Recv() == nil || len(fn.Params) != 4 || strings.HasSuffix(p.File(fn.Pos()), "_test.go") {
+				continue
+			}
+			inFace := ssa.Value(fn.Params[3])
+			core.Instrs(fn, func(in ssa.Instruction) {
+				ph, ok := in.(*ssa.Phi)
+				if !ok {
+					return
+				}
+				hasIn, hasParam := false, false
+				var paramEdge int
+				for i, e := range ph.Edges {
+					if core.Strip(e) == inFace {
+						hasIn = true
+					}
+					if isDerefOfField(core.StripConv(e), "FaceId") {
+						hasParam, paramEdge = true, i
+					}
+				}
+				if !hasIn || !hasParam {
+					return
+				}
+				nz := &core.Atom{Name: "*FaceId != 0", Match: func(cond ssa.Value) (int, int) {
+					op, x, y, okC := core.Cmp(cond)
+					if !okC || (op != token.EQL && op != token.NEQ) {
+						return 0, 0
+					}
+					k, isC := core.ConstInt(y)
+					if !isC || k != 0 || !isDerefOfField(core.StripConv(x), "FaceId") {
+						return 0, 0
+					}
+					return core.Iff(op == token.NEQ)
+				}}
+				pred := ph.Block().Preds[paramEdge]
+				cut, per := core.CutEdges(fn, pos(nz))
+				gated := per[0] > 0 && core.ReachAvoiding(fn, fn.Blocks[0], map[*ssa.BasicBlock]bool{pred: true}, cut) == nil
+				sites = append(sites, site{core.FuncName(fn), c.Pos(in), gated})
+			})
+		}
+		nG := 0
+		for _, s := range sites {
+			if s.gated {
+				nG++
+			}
+		}
+		for _, s := range sites {
+			ok := s.gated || nG == 0
+			c.Decide(ok, "R17.12", "face-id-zero-means-requesting-face:"+s.fn, s.pos, fmt.Sprintf("agrees with the other handlers (%d of %d treat FaceId 0 as the requesting face)", nG, len(sites)), s.fn+" adopts an explicit FaceId 0 as face number 0 while the other handlers ("+fmt.Sprint(nG)+" of "+fmt.Sprint(len(sites))+") take it for the requesting face: a route registered with FaceId=0 lands on the requesting face, the matching unregister removes nothing and still answers 200")
+		}
+		c.Floor("R17.12", "handlers that default the face to the requesting one", len(sites), 4)
+	}
+
 	// ---- R17.8
 	nResp := 0
 	for _, fn := range p.FuncsIn(pkg) {
